@@ -22,29 +22,27 @@ def runWith (special : Mode → Nat → String → List Arg → List CI → M (E
   let conn ← getConn c
   let d := conn.db
   let db ← getDb d
-  let (db', res) := sig.apply raw db
-  setDb d db'
-  match res with
-  | .error e => return some (.err (strBytes e))
-  | .ok (.short r) => return some r
-  | .ok (.ok args cis) =>
-    if fromScript && sig.noScript then return some (.err (strBytes Msgs.COMMAND_IN_SCRIPT_MSG))
-    else if conn.pubsub > 0 && !SigTable.pubsubAllowed.contains sig.name then
-      return some (.err (strBytes Msgs.BAD_COMMAND_IN_PUBSUB_MSG))
-    else
-      match Cmd.regular sig.name with
-      | some body =>
-        let s ← get
-        let ctx : Ctx := { version := s.srv.version, time := s.srv.time, dbnum := d, inTx := conn.inTx, picks := s.picks }
-        match body ctx args cis with
-        | .error e =>
-          if e.startsWith "model:" then fault e
-          writebackAll d cis
-          return some (.err (strBytes e))
-        | .ok o =>
-          modify fun s => { s with picks := s.picks.drop o.picksUsed }
-          writebackAll d o.cis
-          return some o.reply
+  let gate := runGate sig fromScript (conn.pubsub > 0)
+  match Cmd.regular sig.name with
+  | some body =>
+    -- regular command: a pure function of the selected database
+    let s ← get
+    let ctx : Ctx := { version := s.srv.version, time := s.srv.time, dbnum := d, inTx := conn.inTx, picks := s.picks }
+    let o := runRegular sig body ctx gate raw db
+    setDb d o.db
+    modify fun s => { s with picks := s.picks.drop o.picksUsed }
+    match o.fault with | some f => fault f | none => pure ()
+    o.notified.forM (notifyWatch d)
+    return some o.reply
+  | none =>
+    let (db', res) := sig.apply raw db
+    setDb d db'
+    match res with
+    | .error e => return some (.err (strBytes e))
+    | .ok (.short r) => return some r
+    | .ok (.ok args cis) =>
+      match gate with
+      | some e => return some (.err (strBytes e))
       | none =>
         match ← special mode c sig.name args cis with
         | .error e =>
@@ -55,170 +53,201 @@ def runWith (special : Mode → Nat → String → List Arg → List CI → M (E
           writebackAll d cis'
           return r
 
+abbrev SpecialOut := Except Err (Option Reply × List CI)
+
+def okR (r : Reply) (cis : List CI) : M SpecialOut := pure (.ok (some r, cis))
+
+def selectCmd (c : Nat) (args : List Arg) (cis : List CI) : M SpecialOut := do
+  match args with
+  | [.int i] => modifyConn c fun x => { x with db := i.toNat }; okR .ok cis
+  | _ => return .error "model: bad args"
+
+def swapdbCmd (args : List Arg) (cis : List CI) : M SpecialOut := do
+  match args with
+  | [.int i1, .int i2] =>
+    if i1 != i2 then
+      let a := i1.toNat
+      let b := i2.toNat
+      let da ← getDb a
+      let db ← getDb b
+      setDb a db
+      setDb b da
+      let ka ← liveKeys a
+      let kb ← liveKeys b
+      (Cmd.setUnion ka kb).forM fun key => do notifyWatch a key; notifyWatch b key
+    okR .ok cis
+  | _ => return .error "model: bad args"
+
+def moveCmd (d : Nat) (args : List Arg) (cis : List CI) : M SpecialOut := do
+  match args with
+  | [.key k, .int dst] =>
+    let key := ciAt cis k
+    if dst.toNat == d then return .error Msgs.SRC_DST_SAME_MSG
+    if !key.truthy then return .ok (some (.int 0), cis)
+    let ddb ← getDb dst.toNat
+    let (ddb', ditem) := ddb.get key.key
+    setDb dst.toNat ddb'
+    if ditem.isSome then return .ok (some (.int 0), cis)
+    let sdb ← getDb d
+    let (sdb', sitem) := sdb.get key.key
+    setDb d sdb'
+    match sitem with
+    | none => return .error "model: move source vanished"
+    | some it =>
+      let ddb ← getDb dst.toNat
+      setDb dst.toNat { ddb with dict := Db.setRaw ddb.dict key.key it }
+      notifyWatch dst.toNat key.key
+      return .ok (some (.int 1), cis.set k (key.setValue none))
+  | _ => return .error "model: bad args"
+
+def randomkeyCmd (d : Nat) (cis : List CI) : M SpecialOut := do
+  let ks ← liveKeys d
+  if ks.isEmpty then okR .nil cis
+  else
+    let s ← get
+    match s.picks with
+    | [x] :: rest =>
+      if ks.contains x then
+        set { s with picks := rest }
+        okR (.bulk x) cis
+      else fault "randomkey: pick is not a live key"; return .error "model: bad hint"
+    | _ => fault "randomkey: no pick"; return .error "model: bad hint"
+
+def scanCmd (d : Nat) (args : List Arg) (cis : List CI) : M SpecialOut := do
+  match args with
+  | .int cursor :: rest =>
+    let ks ← liveKeys d
+    let db ← getDb d
+    match Cmd.scanReply (sortBy bytesLt ks) id (typeNameOf db) true cursor (Cmd.rawArgs rest) (fun p => p.map .bulk) with
+    | .ok r => okR r cis
+    | .error e => return .error e
+  | _ => return .error "model: bad args"
+
+def flushArgsOk (raw : List Bytes) : Bool :=
+  raw.isEmpty || (raw.length == 1 && casematch (raw.headD []) "async")
+
+def multiCmd (c : Nat) (cis : List CI) : M SpecialOut := do
+  let conn ← getConn c
+  if conn.tx.isSome then return .error Msgs.MULTI_NESTED_MSG
+  modifyConn c fun x => { x with tx := some [], txFailed := false }
+  okR .ok cis
+
+def discardCmd (c : Nat) (cis : List CI) : M SpecialOut := do
+  let conn ← getConn c
+  if conn.tx.isNone then return .error (Msgs.fmt1 Msgs.WITHOUT_MULTI_MSG "DISCARD")
+  modifyConn c fun x => { x with tx := none, txFailed := false }
+  clearWatches c
+  okR .ok cis
+
+/-- run the queued commands in order with the nested runner; `inTx` is set around each -/
+def runQueue (inner : Inner) (c : Nat) : List (String × List Bytes) → M (List (Option Reply))
+  | [] => return []
+  | (fname, fargs) :: rest => do
+    let r ← match SigTable.find fname with
+      | none => do fault "exec: unknown queued command"; pure none
+      | some sig => do
+        modifyConn c fun x => { x with inTx := true }
+        let r ← inner sig fargs
+        modifyConn c fun x => { x with inTx := false }
+        pure r
+    let rs ← runQueue inner c rest
+    return r :: rs
+
+def execCmd (inner : Inner) (c : Nat) (cis : List CI) : M SpecialOut := do
+  let conn ← getConn c
+  match conn.tx with
+  | none => return .error (Msgs.fmt1 Msgs.WITHOUT_MULTI_MSG "EXEC")
+  | some queue =>
+    if conn.txFailed then
+      modifyConn c fun x => { x with tx := none }
+      clearWatches c
+      return .error Msgs.EXECABORT_MSG
+    modifyConn c fun x => { x with tx := none, txFailed := false }
+    let wn := conn.watchNotified
+    clearWatches c
+    if wn then okR .nil cis
+    else
+      let results ← runQueue inner c queue
+      if results.any Option.isNone then
+        -- `assert valid_response_type(result)`: a NoResponse inside the EXEC array
+        modify fun s => { s with crashed := some "AssertionError" }
+        return .ok (none, cis)
+      else okR (.arr (results.map fun r => r.getD .nil)) cis
+
+def watchCmd (c : Nat) (d : Nat) (args : List Arg) (cis : List CI) : M SpecialOut := do
+  let conn ← getConn c
+  if conn.tx.isSome then return .error Msgs.WATCH_INSIDE_MULTI_MSG
+  let ks := (Cmd.keyIdxs args).map fun i => (ciAt cis i).key
+  modifyConn c fun x => { x with watches := ks.foldl (fun w key => if w.contains (d, key) then w else w ++ [(d, key)]) x.watches }
+  okR .ok cis
+
 /-- bodies that touch the database, the server or the connection -/
 def special (inner : Inner) (mode : Mode) (c : Nat) (name : String) (args : List Arg) (cis : List CI) :
-    M (Except Err (Option Reply × List CI)) := do
+    M SpecialOut := do
   let conn ← getConn c
   let d := conn.db
   let raw := Cmd.rawArgs args
-  let ok (r : Reply) : M (Except Err (Option Reply × List CI)) := pure (.ok (some r, cis))
   match name with
-  | "echo" => ok (.bulk (raw.headD []))
+  | "echo" => okR (.bulk (raw.headD [])) cis
   | "ping" =>
     if raw.length > 1 then return .error (Msgs.fmt1 Msgs.WRONG_ARGS_MSG "ping")
-    else if conn.pubsub > 0 then ok (.arr [.bulk (strBytes "pong"), .bulk (raw.headD [])])
+    else if conn.pubsub > 0 then okR (.arr [.bulk (strBytes "pong"), .bulk (raw.headD [])]) cis
     else match raw with
-      | a :: _ => ok (.bulk a)
-      | [] => ok .pong
-  | "select" =>
-    match args with
-    | [.int i] => modifyConn c fun x => { x with db := i.toNat }; ok .ok
-    | _ => return .error "model: bad args"
-  | "swapdb" =>
-    match args with
-    | [.int i1, .int i2] =>
-      if i1 != i2 then
-        let a := i1.toNat
-        let b := i2.toNat
-        let da ← getDb a
-        let db ← getDb b
-        setDb a db
-        setDb b da
-        let ka ← liveKeys a
-        let kb ← liveKeys b
-        (Cmd.setUnion ka kb).forM fun key => do notifyWatch a key; notifyWatch b key
-      ok .ok
-    | _ => return .error "model: bad args"
+      | a :: _ => okR (.bulk a) cis
+      | [] => okR .pong cis
+  | "select" => selectCmd c args cis
+  | "swapdb" => swapdbCmd args cis
   | "keys" =>
     match raw with
     | [p] =>
       let ks ← liveKeys d
-      if p == [42] then ok (Reply.bulks ks) else ok (Reply.bulks (ks.filter (Glob.globMatch p)))
+      if p == [42] then okR (Reply.bulks ks) cis else okR (Reply.bulks (ks.filter (Glob.globMatch p))) cis
     | _ => return .error "model: bad args"
-  | "move" =>
-    match args with
-    | [.key k, .int dst] =>
-      let key := ciAt cis k
-      if dst.toNat == d then return .error Msgs.SRC_DST_SAME_MSG
-      if !key.truthy then return .ok (some (.int 0), cis)
-      let ddb ← getDb dst.toNat
-      let (ddb', ditem) := ddb.get key.key
-      setDb dst.toNat ddb'
-      if ditem.isSome then return .ok (some (.int 0), cis)
-      let sdb ← getDb d
-      let (sdb', sitem) := sdb.get key.key
-      setDb d sdb'
-      match sitem with
-      | none => return .error "model: move source vanished"
-      | some it =>
-        let ddb ← getDb dst.toNat
-        setDb dst.toNat { ddb with dict := Db.setRaw ddb.dict key.key it }
-        notifyWatch dst.toNat key.key
-        return .ok (some (.int 1), cis.set k (key.setValue none))
-    | _ => return .error "model: bad args"
-  | "randomkey" =>
-    let ks ← liveKeys d
-    if ks.isEmpty then ok .nil
-    else
-      let s ← get
-      match s.picks with
-      | [x] :: rest =>
-        if ks.contains x then
-          set { s with picks := rest }
-          ok (.bulk x)
-        else fault "randomkey: pick is not a live key"; return .error "model: bad hint"
-      | _ => fault "randomkey: no pick"; return .error "model: bad hint"
-  | "scan" =>
-    match args with
-    | .int cursor :: rest =>
-      let ks ← liveKeys d
-      let db ← getDb d
-      match Cmd.scanReply (sortBy bytesLt ks) id (typeNameOf db) true cursor (Cmd.rawArgs rest) (fun p => p.map .bulk) with
-      | .ok r => ok r
-      | .error e => return .error e
-    | _ => return .error "model: bad args"
+  | "move" => moveCmd d args cis
+  | "randomkey" => randomkeyCmd d cis
+  | "scan" => scanCmd d args cis
   | "sort" =>
     match ← sortCmd c d args cis with
     | .ok (r, cis') => return .ok (some r, cis')
     | .error e => return .error e
   | "dbsize" =>
     let ks ← liveKeys d
-    ok (.int ks.length)
+    okR (.int ks.length) cis
   | "flushdb" =>
-    if !raw.isEmpty && (raw.length != 1 || !casematch (raw.headD []) "async") then return .error Msgs.SYNTAX_ERROR_MSG
+    if !flushArgsOk raw then return .error Msgs.SYNTAX_ERROR_MSG
     clearDb d
-    ok .ok
+    okR .ok cis
   | "flushall" =>
-    if !raw.isEmpty && (raw.length != 1 || !casematch (raw.headD []) "async") then return .error Msgs.SYNTAX_ERROR_MSG
+    if !flushArgsOk raw then return .error Msgs.SYNTAX_ERROR_MSG
     (List.range 16).forM clearDb
-    ok .ok
-  | "lastsave" => ok (.int (← get).srv.lastsave)
+    okR .ok cis
+  | "lastsave" => okR (.int (← get).srv.lastsave) cis
   | "save" =>
     let t ← nextClock
     modify fun s => { s with srv := { s.srv with lastsave := t / TICKS } }
-    ok .ok
+    okR .ok cis
   | "bgsave" =>
     if raw.length > 1 || (raw.length == 1 && !casematch (raw.headD []) "schedule") then return .error Msgs.SYNTAX_ERROR_MSG
     let t ← nextClock
     modify fun s => { s with srv := { s.srv with lastsave := t / TICKS } }
-    ok (.status (strBytes "Background saving started"))
+    okR (.status (strBytes "Background saving started")) cis
   | "time" =>
     let t ← nextClock
     let us := roundHalfEven t 10
-    ok (.arr [.bulk (intBytes (us / 1000000)), .bulk (intBytes (us % 1000000))])
-  -- transactions
-  | "multi" =>
-    if conn.tx.isSome then return .error Msgs.MULTI_NESTED_MSG
-    modifyConn c fun x => { x with tx := some [], txFailed := false }
-    ok .ok
-  | "discard" =>
-    if conn.tx.isNone then return .error (Msgs.fmt1 Msgs.WITHOUT_MULTI_MSG "DISCARD")
-    modifyConn c fun x => { x with tx := none, txFailed := false }
-    clearWatches c
-    ok .ok
-  | "exec" =>
-    match conn.tx with
-    | none => return .error (Msgs.fmt1 Msgs.WITHOUT_MULTI_MSG "EXEC")
-    | some queue =>
-      if conn.txFailed then
-        modifyConn c fun x => { x with tx := none }
-        clearWatches c
-        return .error Msgs.EXECABORT_MSG
-      modifyConn c fun x => { x with tx := none, txFailed := false }
-      let wn := conn.watchNotified
-      clearWatches c
-      if wn then ok .nil
-      else
-        let mut results : List (Option Reply) := []
-        for (fname, fargs) in queue do
-          match SigTable.find fname with
-          | none => fault "exec: unknown queued command"
-          | some sig =>
-            modifyConn c fun x => { x with inTx := true }
-            let r ← inner sig fargs
-            modifyConn c fun x => { x with inTx := false }
-            results := results ++ [r]
-        if results.any Option.isNone then
-          -- `assert valid_response_type(result)`: a NoResponse inside the EXEC array
-          modify fun s => { s with crashed := some "AssertionError" }
-          return .ok (none, cis)
-        else ok (.arr (results.map fun r => r.getD .nil))
-  | "watch" =>
-    if conn.tx.isSome then return .error Msgs.WATCH_INSIDE_MULTI_MSG
-    let ks := (Cmd.keyIdxs args).map fun i => (ciAt cis i).key
-    modifyConn c fun x => { x with watches := ks.foldl (fun w key => if w.contains (d, key) then w else w ++ [(d, key)]) x.watches }
-    ok .ok
-  | "unwatch" => clearWatches c; ok .ok
-  -- pub/sub
+    okR (.arr [.bulk (intBytes (us / 1000000)), .bulk (intBytes (us % 1000000))]) cis
+  | "multi" => multiCmd c cis
+  | "discard" => discardCmd c cis
+  | "exec" => execCmd inner c cis
+  | "watch" => watchCmd c d args cis
+  | "unwatch" => clearWatches c; okR .ok cis
   | "subscribe" => subscribeGen c false raw; return .ok (none, cis)
   | "psubscribe" => subscribeGen c true raw; return .ok (none, cis)
   | "unsubscribe" => unsubscribeGen c false raw; return .ok (none, cis)
   | "punsubscribe" => unsubscribeGen c true raw; return .ok (none, cis)
   | "publish" =>
     match raw with
-    | [ch, msg] => let n ← publish ch msg; ok (.int n)
+    | [ch, msg] => let n ← publish ch msg; okR (.int n) cis
     | _ => return .error "model: bad args"
-  -- blocking pops
   | "blpop" | "brpop" =>
     match raw.getLast? with
     | none => return .error "model: bad args"
